@@ -10,6 +10,10 @@ from .common import DUNDER_SEMANTICS, dispatch_ops, expected_cmp, generic_class,
 
 DUNDERS = ("__eq__", "__le__", "__ge__", "__contains__", "__getitem__")
 
+from .C14 import site_key
+
+from .C10 import items_total, reeval_refresh
+
 
 def check(repo: Repo, rep, tier):
     rep.not_decided = "what the user's own __eq__/ordering returns; values that change between evaluations (outside the property's scope)"
@@ -17,6 +21,9 @@ def check(repo: Repo, rep, tier):
     inactive(repo, rep)
     one_op(repo, rep)
     forward_eq(repo, rep)
+    site_key(repo, rep)
+    reeval_refresh(repo, rep)
+    items_total(repo, rep)
 
 
 def no_flags(v):
